@@ -108,6 +108,37 @@ func (u *Universe) Struct(name string) *Struct {
 	return nil
 }
 
+// FileKind says whether values of the type are files: 2 = the type names
+// files (file, path, user file types, or a struct / collection containing
+// one), 1 = it may contain paths (string, untyped map, or a struct /
+// collection of those), 0 = it cannot.
+func (u *Universe) FileKind(ty Ty) int {
+	return u.fileKindBase(ty.Base, 0)
+}
+
+func (u *Universe) fileKindBase(b string, depth int) int {
+	switch b {
+	case "file", "path":
+		return 2
+	case "string", "map":
+		return 1
+	case "int", "float", "bool":
+		return 0
+	}
+	if u.IsFileType(b) {
+		return 2
+	}
+	k := 0
+	if s := u.Struct(b); s != nil && depth < 8 {
+		for _, f := range s.Fields {
+			if fk := u.fileKindBase(f.T.Base, depth+1); fk > k {
+				k = fk
+			}
+		}
+	}
+	return k
+}
+
 // BaseNames returns every scalar type name of the universe.
 func (u *Universe) BaseNames() []string {
 	r := append([]string{}, Builtins...)
